@@ -172,7 +172,15 @@ pub enum Action {
 	/// C08: node `n` stops for good (its operator never comes back)
 	Gone { n: usize },
 	/// perturbations of the liquidation phase (see justice::LiqPlan)
-	LiqPlan { holds: Vec<(u32, u32)>, restarts: Vec<(u32, usize)>, fees: Vec<(u32, usize, u32)> },
+	LiqPlan {
+		holds: Vec<(u32, u32)>,
+		restarts: Vec<(u32, usize)>,
+		fees: Vec<(u32, usize, u32)>,
+		/// (round, depth): the last `depth` (< 6) blocks are replaced, their transactions going
+		/// back to the mempool
+		#[serde(default)]
+		reorgs: Vec<(u32, u32)>,
+	},
 }
 
 impl Action {
@@ -2545,10 +2553,11 @@ impl World {
 			Action::Cheat { n, chan, age, same_block, later, v_late } => {
 				self.do_cheat(*n, *chan, *age, *same_block, *later, *v_late)
 			},
-			Action::LiqPlan { holds, restarts, fees } => self.do_liq_plan(crate::justice::LiqPlan {
+			Action::LiqPlan { holds, restarts, fees, reorgs } => self.do_liq_plan(crate::justice::LiqPlan {
 				holds: holds.clone(),
 				restarts: restarts.clone(),
 				fees: fees.clone(),
+				reorgs: reorgs.clone(),
 			}),
 		};
 		if self.cfg.profile == "justice" && !self.dead && self.cheat.is_none() {
